@@ -6,8 +6,9 @@
 // the cache prefix on the fault-injecting vfs:// file system. Enumerated: every subset
 // of pre-existing (valid) shard files; every file operation of the failure-free
 // history failed (Fail, FailPartial for writes) and crashed; in the thorough tier
-// ordered pairs of faults for the two smallest writer programs. After every first run
-// a second run happens in a fresh session over whatever files are left.
+// ordered pairs of faults for the smallest writer programs; the upstream computation
+// failing by itself after r rows. After every first run a second run happens in a
+// fresh session over whatever files are left.
 //
 // Cases execute in child processes (child.go); this file enumerates and judges.
 package main
@@ -168,7 +169,7 @@ func (ch *child) do(j *job) (*result, bool) {
 		}
 		ch.count++
 		return &res, true
-	case <-time.After(2*hangAfter + 30*time.Second):
+	case <-time.After(3*hangAfter + 30*time.Second):
 		ch.cmd.Process.Kill()
 		return nil, false
 	}
@@ -211,8 +212,8 @@ func (c *checker) runJobs(jobs []*job, handle func(*job, *result)) {
 						continue
 					}
 					res = r
-					if res.Hang != "" || ch.count >= childJobs {
-						if res.Hang != "" {
+					if res.Hang || ch.count >= childJobs {
+						if res.Hang {
 							ch.cmd.Wait()
 						} else {
 							ch.stop()
@@ -222,7 +223,7 @@ func (c *checker) runJobs(jobs []*job, handle func(*job, *result)) {
 				}
 				if res != nil {
 					mu.Lock()
-					c.evaluations++
+					c.runs++
 					handle(j, res)
 					mu.Unlock()
 				}
@@ -253,38 +254,60 @@ type viol struct {
 	detail    interface{}
 }
 
-type checker struct {
-	r           *ev.Run
-	nextID      int
-	evaluations int
+// firstRun is a run whose successor (the fault-free run over the files it left) is
+// being looked up or waited for.
+type firstRun struct {
+	j   *job
+	res *result
+}
 
-	valid     map[string]map[int][]byte // program name -> valid shard file contents
-	keyShard  map[int]map[string]int    // data set -> key -> post-shuffle shard (learned)
-	logs      map[string][]string       // prog/exec/subset -> union of failure-free first-run labels
-	pending   map[string]*pendingViol   // signature -> first case
-	nontriv   *ev.Counter               // distinct (program, executor, subset, label class, mode) with a fired fault
-	outcomes  *ev.Counter
-	mech      map[string]int
-	notFired  int
-	faultRuns int
-	sampled   map[string]bool
+type checker struct {
+	r      *ev.Run
+	nextID int
+	runs   int // runs executed (child jobs)
+	cases  int // first runs judged together with their second run
+
+	valid    map[string]map[int][]byte // program name -> valid shard file contents
+	keyShard map[int]map[string]int    // data set -> key -> post-shuffle shard (learned)
+	logs     map[string][]string       // prog/exec/subset -> union of failure-free labels
+
+	// A fault-free run is a function of (program, executor, file contents): it happens
+	// in a fresh session on a fresh volume. memo holds the ones already executed.
+	memo    map[string]*result
+	waiting map[string][]firstRun
+	queued  []*job
+
+	pending  map[string]*pendingViol
+	nontriv  *ev.Counter // distinct (program, executor, subset, label class, mode) whose faults all fired
+	outcomes *ev.Counter
+	states   *ev.Counter // distinct file states left by first runs
+	mech     map[string]int
+	notFired int
+	faultRun int
+	sampled  map[string]bool
+	phase    string
 }
 
 type pendingViol struct {
 	v     viol
-	j     *job
+	cases []*job
 	count int
 }
 
 func newChecker(r *ev.Run) *checker {
 	return &checker{r: r, valid: map[string]map[int][]byte{}, keyShard: map[int]map[string]int{}, logs: map[string][]string{},
-		pending: map[string]*pendingViol{}, nontriv: ev.NewCounter(), outcomes: ev.NewCounter(), mech: map[string]int{},
+		memo: map[string]*result{}, waiting: map[string][]firstRun{},
+		pending: map[string]*pendingViol{}, nontriv: ev.NewCounter(), outcomes: ev.NewCounter(), states: ev.NewCounter(), mech: map[string]int{},
 		sampled: map[string]bool{}}
 }
 
 func (c *checker) newJob(p prog, kind string, files map[int][]byte, faults []fault) *job {
 	c.nextID++
-	return &job{ID: c.nextID, Prog: p, Exec: kind, Files: files, Faults: faults}
+	j := &job{ID: c.nextID, Prog: p, Exec: kind, Files: files, Faults: faults}
+	if len(faults) == 0 {
+		j.Tries = 3
+	}
+	return j
 }
 
 func subsetName(files map[int][]byte) string {
@@ -295,6 +318,18 @@ func subsetName(files map[int][]byte) string {
 		}
 	}
 	return "{" + strings.Join(s, ",") + "}"
+}
+
+func stateKey(p prog, kind string, files map[int][]byte) string {
+	k := p.Name() + "/" + kind
+	for s := 0; s < nShard; s++ {
+		if b, ok := files[s]; ok {
+			k += "/" + ev.Hash(string(b))
+		} else {
+			k += "/-"
+		}
+	}
+	return k
 }
 
 func (c *checker) caseName(j *job) string {
@@ -329,7 +364,8 @@ func labelOrdinal(label string) int {
 	return n
 }
 
-// faultClass is the <op-class> of signatures: "Write-failpartial", "Stat-fail+Close-fail", "Write-fail+crash", "no-fault".
+// faultClass is the <op-class> of signatures: "Write-failpartial", "Stat-fail+Close-fail",
+// "Write-fail+crash", "upstream-error", "no-fault".
 func faultClass(j *job) string {
 	fs := j.Faults
 	if len(j.Upstream) == 2 {
@@ -350,12 +386,23 @@ func faultClass(j *job) string {
 	return strings.Join(s, "+")
 }
 
+func faultFree(j *job) bool { return len(j.Faults) == 0 && j.Upstream == nil }
+
 func (c *checker) violate(j *job, v viol) {
-	if p, ok := c.pending[v.sig]; ok {
-		p.count++
-		return
+	p, ok := c.pending[v.sig]
+	if !ok {
+		p = &pendingViol{v: v}
+		c.pending[v.sig] = p
 	}
-	c.pending[v.sig] = &pendingViol{v: v, j: j, count: 1}
+	p.count++
+	if len(p.cases) < 4 {
+		for _, x := range p.cases {
+			if x == j {
+				return
+			}
+		}
+		p.cases = append(p.cases, j)
+	}
 }
 
 // ---- the oracle ----------------------------------------------------------------------
@@ -451,7 +498,7 @@ func (c *checker) shardRows(p prog) [][]string {
 // anything is sent to a worker). The driver's decision is shipped in CompileEnv, so
 // such a run, if it succeeds, must still not recompute what the driver saw as cached.
 func workerViewFaultOnly(j *job) bool {
-	if j.Exec != "vsys" || len(j.Faults) == 0 {
+	if j.Exec != "vsys" || len(j.Faults) == 0 || j.Upstream != nil {
 		return false
 	}
 	for _, f := range j.Faults {
@@ -462,7 +509,24 @@ func workerViewFaultOnly(j *job) bool {
 	return true
 }
 
-func (c *checker) judgeFiles(j *job, when string, files map[int]fileObs) (vs []viol, nfiles int) {
+func orOK(s string) string {
+	if s == "" {
+		return "ok"
+	}
+	return "error: " + s
+}
+
+func slim(files map[int]fileObs) map[int]fileObs {
+	out := map[int]fileObs{}
+	for s, fo := range files {
+		out[s] = fo
+	}
+	return out
+}
+
+// judgeFiles: complete-or-absent. j is the case (its first run), when says which run
+// left the files.
+func (c *checker) judgeFiles(j *job, when string, files map[int]fileObs, detail map[string]interface{}) (vs []viol) {
 	p := j.Prog
 	want := c.shardRows(p)
 	for s := 0; s < nShard; s++ {
@@ -470,7 +534,6 @@ func (c *checker) judgeFiles(j *job, when string, files map[int]fileObs) (vs []v
 		if !ok {
 			continue
 		}
-		nfiles++
 		good := fo.Complete && fo.Strict == ""
 		if good {
 			if p.postShuffle() {
@@ -485,18 +548,21 @@ func (c *checker) judgeFiles(j *job, when string, files map[int]fileObs) (vs []v
 				what: fmt.Sprintf("%s: the file of shard %d %s is neither absent nor the complete encoded shard: %d bytes; the cache reader decodes it to %v (end of stream reached=%v err=%q); "+
 					"decompressing it as one complete zstd frame: %s; the shard holds %v",
 					c.caseName(j), s, when, fo.Size, fo.Rows, fo.Complete, fo.Err, orOK(fo.Strict), want[s]),
-				detail: map[string]interface{}{"job": j, "file": fo, "when": when},
+				detail: detail,
 			})
 		}
 	}
 	return
 }
 
-func (c *checker) judgeRun(j *job, which string, obs *runObs, faultFree bool) (vs []viol) {
+// judgeRun judges one run of case j. which = "run1" (j's own run) or "run2" (the
+// fault-free run over the files run1 left).
+func (c *checker) judgeRun(j *job, which string, res *result, detail map[string]interface{}) (vs []viol) {
 	p := j.Prog
+	obs := res.Run
 	name, kind := p.Name(), j.Exec
 	fc := faultClass(j)
-	detail := map[string]interface{}{"job": j, "run": which, "obs": obs}
+	noFault := which == "run2" || faultFree(j)
 	if obs.OK {
 		exp := expectedRows(p)
 		same := sameMultiset(obs.Rows, exp)
@@ -511,24 +577,25 @@ func (c *checker) judgeRun(j *job, which string, obs *runObs, faultFree bool) (v
 			})
 		}
 	}
-	mustSucceed := faultFree && !(p.reads() && len(obs.Before) < nShard)
+	mustSucceed := noFault && !(p.reads() && len(obs.Before) < nShard)
 	if mustSucceed && !obs.OK {
 		sig := fmt.Sprintf("C13/%s/%s/second-run-fails/%s", name, kind, fc)
 		if which == "run1" {
 			sig = fmt.Sprintf("C13/%s/%s/fault-free-run-fails/files=%d-of-%d", name, kind, len(obs.Before), nShard)
 		}
 		vs = append(vs, viol{
-			sig:    sig,
-			what:   fmt.Sprintf("%s: %s (no fault armed, files at start: %v, all of them left by a previous run or valid) failed: %s", c.caseName(j), which, obs.Before, obs.Err),
+			sig: sig,
+			what: fmt.Sprintf("%s: %s (no fault armed; files at start: %v) failed in each of %d attempts: %s",
+				c.caseName(j), which, obs.Before, res.Attempts, obs.Err),
 			detail: detail,
 		})
 	}
-	if obs.OK && (faultFree || (which == "run1" && workerViewFaultOnly(j))) {
+	if obs.OK && (noFault || workerViewFaultOnly(j)) {
 		cached := cachedShards(p, obs.Before)
-		c.mech[fmt.Sprintf("zero-call checks (%s): cached shards checked", which)] += len(cached)
+		c.mech["zero-call checks: cached shards checked"] += len(cached)
 		if bad := c.recomputed(p, cached, obs.Counts); len(bad) > 0 {
 			cls := which
-			if which == "run1" && !faultFree {
+			if !noFault {
 				cls = "run1-worker-stat-fault"
 			}
 			vs = append(vs, viol{
@@ -538,75 +605,156 @@ func (c *checker) judgeRun(j *job, which string, obs *runObs, faultFree bool) (v
 			})
 		}
 	}
+	// A completed run that read every shard of the cached slice to its end has written
+	// every shard.
+	if obs.OK && noFault && !p.underHead() && !p.reads() && len(res.After) < nShard {
+		vs = append(vs, viol{
+			sig:    fmt.Sprintf("C13/%s/%s/shard-not-cached-after-completed-run/%s", name, kind, which),
+			what:   fmt.Sprintf("%s: %s completed without any fault and read every shard to its end, but only the files of shards %v exist", c.caseName(j), which, keysOf(res.After)),
+			detail: detail,
+		})
+	}
 	return
 }
 
-// judge applies the property to one case.
-func (c *checker) judge(j *job, res *result) []viol {
-	var vs []viol
-	p := j.Prog
-	if res.Hang != "" {
-		// not a C13 verdict; reported as a machinery problem
-		c.r.Machinery(fmt.Sprintf("case %s: %s did not return within %v\n%s", c.caseName(j), res.Hang, hangAfter, tail(res.Dump, 3000)))
-		return nil
-	}
-	faultFree1 := len(j.Faults) == 0 && j.Upstream == nil
-	vs = append(vs, c.judgeRun(j, "run1", res.Run1, faultFree1)...)
-	fv, n1 := c.judgeFiles(j, "after the first run", res.Snap)
-	vs = append(vs, fv...)
-	complete := func(which string, obs *runObs, files map[int]fileObs) {
-		if obs.OK && !p.underHead() && !p.reads() && len(files) < nShard {
-			var have []int
-			for s := range files {
-				have = append(have, s)
-			}
-			sort.Ints(have)
-			vs = append(vs, viol{
-				sig:    fmt.Sprintf("C13/%s/%s/shard-not-cached-after-completed-run/%s", p.Name(), j.Exec, which),
-				what:   fmt.Sprintf("%s: %s completed without any fault and read every shard to its end, but only the files of shards %v exist", c.caseName(j), which, have),
-				detail: map[string]interface{}{"job": j, "run": which, "obs": obs},
-			})
-		}
-	}
-	if faultFree1 {
-		complete("run1", res.Run1, res.Snap)
-	}
-	if res.Run2 != nil {
-		vs = append(vs, c.judgeRun(j, "run2", res.Run2, true)...)
-		fv, _ := c.judgeFiles(j, "after the second run", res.Final)
-		vs = append(vs, fv...)
-		if len(fv) == 0 {
-			complete("run2", res.Run2, res.Final)
-		}
-	}
+func (c *checker) judgeFirst(j *job, res *result) []viol {
+	detail := map[string]interface{}{"case": c.caseName(j), "job": j, "run1": res.Run, "files_after_run1": slim(res.After)}
+	vs := c.judgeRun(j, "run1", res, detail)
+	vs = append(vs, c.judgeFiles(j, "after the first run", res.After, detail)...)
 	if len(res.Extra) > 0 {
 		c.r.Note("case %s: files that are no shard files: %v", c.caseName(j), res.Extra)
 	}
-	// statistics
-	o1 := "ok"
-	if !res.Run1.OK {
-		o1 = "error"
-		if res.Run1.Injected {
-			o1 = "error(injected)"
-		}
-	}
-	o2 := "-"
-	if res.Run2 != nil {
-		o2 = "ok"
-		if !res.Run2.OK {
-			o2 = "error"
-		}
-	}
-	c.outcomes.Add(fmt.Sprintf("run1=%s files-left=%d run2=%s", o1, n1, o2))
 	return vs
+}
+
+func (c *checker) judgeSecond(j *job, res1, res2 *result) []viol {
+	detail := map[string]interface{}{"case": c.caseName(j), "job": j, "run1": res1.Run, "files_after_run1": slim(res1.After),
+		"run2": res2.Run, "run2_attempts": res2.Attempts, "files_after_run2": slim(res2.After)}
+	vs := c.judgeRun(j, "run2", res2, detail)
+	vs = append(vs, c.judgeFiles(j, "after the second run", res2.After, detail)...)
+	return vs
+}
+
+func outcome(o *runObs) string {
+	if o.OK {
+		return "ok"
+	}
+	if o.Injected {
+		return "error(injected)"
+	}
+	return "error"
+}
+
+func bytesOf(files map[int]fileObs) map[int][]byte {
+	m := map[int][]byte{}
+	for s, fo := range files {
+		m[s] = fo.Bytes
+	}
+	return m
+}
+
+// ---- execution of cases -----------------------------------------------------------------
+
+// second judges the pair (first run, its fault-free successor) once the successor is known.
+func (c *checker) second(f firstRun, res2 *result) {
+	c.cases++
+	for _, v := range c.judgeSecond(f.j, f.res, res2) {
+		c.violate(f.j, v)
+	}
+	c.outcomes.Add(fmt.Sprintf("run1=%s files-left=%d run2=%s", outcome(f.res.Run), len(f.res.After), outcome(res2.Run)))
+}
+
+// first handles the result of a case's own run.
+func (c *checker) first(j *job, res *result) {
+	if res.Hang {
+		// not a C13 verdict; reported as a machinery problem
+		c.r.Machinery(fmt.Sprintf("case %s: the run did not return within %v\n%s", c.caseName(j), hangAfter, tail(res.Dump, 3000)))
+		return
+	}
+	if len(res.Flaky) > 0 {
+		c.mech["fault-free runs that failed once and succeeded when repeated"]++
+		if c.mech["fault-free runs that failed once and succeeded when repeated"] <= 5 {
+			c.r.Note("repeated: %s: %v", c.caseName(j), res.Flaky)
+		}
+	}
+	if faultFree(j) {
+		k := stateKey(j.Prog, j.Exec, j.Files)
+		if c.memo[k] == nil {
+			c.memo[k] = res
+		}
+	}
+	for _, v := range c.judgeFirst(j, res) {
+		c.violate(j, v)
+	}
+	after := bytesOf(res.After)
+	k := stateKey(j.Prog, j.Exec, after)
+	c.states.Add(k)
+	f := firstRun{j, res}
+	if res2 := c.memo[k]; res2 != nil {
+		c.second(f, res2)
+		return
+	}
+	if len(c.waiting[k]) == 0 {
+		c.queued = append(c.queued, c.newJob(j.Prog, j.Exec, after, nil))
+	}
+	c.waiting[k] = append(c.waiting[k], f)
+}
+
+// drain executes the queued fault-free successor runs.
+func (c *checker) drain() {
+	for len(c.queued) > 0 {
+		q := c.queued
+		c.queued = nil
+		c.runJobs(q, func(j *job, res *result) {
+			c.mech["runs:second:"+j.Exec]++
+			k := stateKey(j.Prog, j.Exec, j.Files)
+			if res.Hang {
+				c.r.Machinery(fmt.Sprintf("second run of %s: did not return within %v\n%s", c.caseName(j), hangAfter, tail(res.Dump, 3000)))
+				delete(c.waiting, k)
+				return
+			}
+			if len(res.Flaky) > 0 {
+				c.mech["fault-free runs that failed once and succeeded when repeated"]++
+			}
+			c.memo[k] = res
+			for _, f := range c.waiting[k] {
+				c.second(f, res)
+			}
+			delete(c.waiting, k)
+			// the files the second run left are judged (judgeSecond); no third run
+		})
+	}
+}
+
+// runCases executes first runs (in chunks, so that the time budget drops the last,
+// most complex ones) and their successors. It returns the number of cases not run.
+func (c *checker) runCases(jobs []*job, budget time.Duration, handle func(*job, *result)) int {
+	const chunk = 400
+	for i := 0; i < len(jobs); i += chunk {
+		if c.r.OverBudget(budget) {
+			return len(jobs) - i
+		}
+		end := i + chunk
+		if end > len(jobs) {
+			end = len(jobs)
+		}
+		c.runJobs(jobs[i:end], func(j *job, res *result) {
+			c.mech["runs:"+c.phase+":"+j.Exec]++
+			c.first(j, res)
+			if handle != nil && !res.Hang {
+				handle(j, res)
+			}
+		})
+		c.drain()
+	}
+	return 0
 }
 
 // ---- phases ----------------------------------------------------------------------------
 
 func subsets() []int {
 	// simplest first: by number of files
-	out := []int{0, 1, 2, 4, 3, 5, 6, 7}
-	return out
+	return []int{0, 1, 2, 4, 3, 5, 6, 7}
 }
 
 func (c *checker) filesFor(p prog, mask int) map[int][]byte {
@@ -626,6 +774,7 @@ func logKey(p prog, kind string, files map[int][]byte) string {
 
 // reference: the uncached programs, the valid file contents, the key -> shard table.
 func (c *checker) reference(progs []prog) {
+	c.phase = "reference"
 	// (a) uncached programs agree with the reference model on both executors
 	var jobs []*job
 	for _, p := range progs {
@@ -636,64 +785,56 @@ func (c *checker) reference(progs []prog) {
 		}
 	}
 	c.runJobs(jobs, func(j *job, res *result) {
-		if res.Hang != "" || !res.Run1.OK {
-			ev.Fatal("uncached program %s on %s did not run: %s %s", j.Prog.Name(), j.Exec, res.Hang, res.Run1.Err)
+		if res.Hang || !res.Run.OK {
+			ev.Fatal("uncached program %s on %s did not run: hang=%v %s", j.Prog.Name(), j.Exec, res.Hang, res.Run.Err)
 		}
 		exp := expectedRows(j.Prog)
-		ok := sameMultiset(res.Run1.Rows, exp)
+		ok := sameMultiset(res.Run.Rows, exp)
 		if ok && j.Prog.ordered() {
-			ok = sameSeq(res.Run1.Rows, exp)
+			ok = sameSeq(res.Run.Rows, exp)
 		}
 		if !ok {
-			ev.Fatal("reference model disagrees with the uncached program %s on %s: got %v, model %v", j.Prog.Name(), j.Exec, res.Run1.Rows, exp)
+			ev.Fatal("reference model disagrees with the uncached program %s on %s: got %v, model %v", j.Prog.Name(), j.Exec, res.Run.Rows, exp)
 		}
-		if len(res.Run1.Log) != 0 {
-			ev.Fatal("uncached program %s touched the cache volume: %v", j.Prog.Name(), res.Run1.Log)
+		if len(res.Run.Log) != 0 {
+			ev.Fatal("uncached program %s touched the cache volume: %v", j.Prog.Name(), res.Run.Log)
 		}
-		// the call-count table is shared with in-process workers
-		if res.Run1.Counts["src/0"] == 0 || res.Run1.Counts["src/2"] == 0 {
-			ev.Fatal("call counts of %s on %s are empty: %v (workers not in-process?)", j.Prog.Name(), j.Exec, res.Run1.Counts)
+		// the call-count table is shared with the in-process workers
+		if res.Run.Counts["src/0"] == 0 || res.Run.Counts["src/2"] == 0 {
+			ev.Fatal("call counts of %s on %s are empty: %v (workers not in-process?)", j.Prog.Name(), j.Exec, res.Run.Counts)
 		}
 	})
 	// (b) valid file contents from a clean first run of the writer programs (local)
 	jobs = nil
-	for _, p := range progs {
-		if p.reads() {
-			continue
-		}
-		j := c.newJob(p, "local", nil, nil)
-		j.Keep = true
-		jobs = append(jobs, j)
-	}
-	// ReadCache programs read what cache-mid of the same data set wrote
-	need := map[int]bool{}
-	for _, p := range progs {
-		if p.reads() {
-			need[p.Data] = true
+	mid := func(op string, d int) prog { return prog{Shape: "mid", Op: op, Data: d} }
+	have := map[prog]bool{}
+	add := func(p prog) {
+		if !have[p] {
+			have[p] = true
+			jobs = append(jobs, c.newJob(p, "local", nil, nil))
 		}
 	}
-	for d := range need {
-		have := false
-		for _, j := range jobs {
-			have = have || (j.Prog == prog{Shape: "mid", Op: "cache", Data: d})
-		}
-		if !have {
-			j := c.newJob(prog{Shape: "mid", Op: "cache", Data: d}, "local", nil, nil)
-			j.Keep = true
-			jobs = append(jobs, j)
+	for _, p := range progs {
+		switch {
+		case p.reads():
+			add(mid("cache", p.Data)) // ReadCache programs read what cache-mid wrote
+		case p.underHead():
+			add(mid(p.Op, p.Data)) // Head stops early; the cached slice is the one of "mid"
+		default:
+			add(p)
 		}
 	}
 	c.runJobs(jobs, func(j *job, res *result) {
 		p := j.Prog
-		if res.Hang != "" || !res.Run1.OK {
-			ev.Fatal("clean first run of %s did not succeed: %s %s", p.Name(), res.Hang, res.Run1.Err)
+		if res.Hang || !res.Run.OK {
+			ev.Fatal("clean first run of %s did not succeed: hang=%v %s", p.Name(), res.Hang, res.Run.Err)
 		}
 		if p.postShuffle() && c.keyShard[p.Data] == nil {
 			// learn which key lives in which post-shuffle shard (C05's subject, not
 			// ours); the union must be the model's rows, each key in one shard.
 			ks := map[string]int{}
 			var union []string
-			for s, fo := range res.Snap {
+			for s, fo := range res.After {
 				for _, rw := range fo.Rows {
 					k, _, _ := strings.Cut(rw, "=")
 					if _, dup := ks[k]; dup {
@@ -709,51 +850,33 @@ func (c *checker) reference(progs []prog) {
 			c.keyShard[p.Data] = ks
 		}
 		m := map[int][]byte{}
-		for s, fo := range res.Snap {
+		for s, fo := range res.After {
 			m[s] = fo.Bytes
 			if fo.Strict != "" || !fo.Complete {
 				ev.Fatal("clean first run of %s: file of shard %d fails the completeness checks (complete=%v %s strict: %s)", p.Name(), s, fo.Complete, fo.Err, fo.Strict)
 			}
 		}
 		c.valid[p.Name()] = m
-		if !p.underHead() && len(m) != nShard {
-			// reported by judge() as a violation in the subset phase; the files are
-			// needed here only as material
-			c.r.Note("clean first run of %s left %d files", p.Name(), len(m))
-		}
 	})
 	for _, p := range progs {
 		switch {
 		case p.reads():
-			c.valid[p.Name()] = c.valid[prog{Shape: "mid", Op: "cache", Data: p.Data}.Name()]
+			c.valid[p.Name()] = c.valid[mid("cache", p.Data).Name()]
 		case p.underHead():
-			// Head stops early, so a clean run does not leave every file; the cached
-			// slice is the same as in the "mid" program.
-			c.valid[p.Name()] = c.valid[prog{Shape: "mid", Op: p.Op, Data: p.Data}.Name()]
-			if len(c.valid[p.Name()]) != nShard {
-				c.valid[p.Name()] = c.valid[prog{Shape: "mid", Op: "cache", Data: p.Data}.Name()]
-			}
+			c.valid[p.Name()] = c.valid[mid(p.Op, p.Data).Name()]
 		}
 		if len(c.valid[p.Name()]) != nShard {
-			ev.Fatal("no valid shard files for %s (have %d)", p.Name(), len(c.valid[p.Name()]))
+			ev.Fatal("no valid shard files for %s (a clean first run left %d files)", p.Name(), len(c.valid[p.Name()]))
 		}
-	}
-	// postsh with data set d needs keyShard[d] even if only the partial program is present
-	for _, p := range progs {
 		if p.postShuffle() && c.keyShard[p.Data] == nil {
 			ev.Fatal("no key->shard table for data set %d", p.Data)
 		}
 	}
 }
 
-func (c *checker) handle(j *job, res *result) {
-	for _, v := range c.judge(j, res) {
-		c.violate(j, v)
-	}
-}
-
 // subsetsPhase: every subset of pre-existing files, no faults; records the histories.
 func (c *checker) subsetsPhase(progs []prog) {
+	c.phase = "subsets"
 	var jobs []*job
 	for _, mask := range subsets() {
 		for _, p := range progs {
@@ -768,40 +891,27 @@ func (c *checker) subsetsPhase(progs []prog) {
 			}
 		}
 	}
-	c.runJobs(jobs, func(j *job, res *result) {
-		c.handle(j, res)
-		if res.Hang != "" {
-			return
-		}
+	c.runCases(jobs, 24*time.Hour, func(j *job, res *result) {
 		key := logKey(j.Prog, j.Exec, j.Files)
 		have := map[string]bool{}
 		for _, l := range c.logs[key] {
 			have[l] = true
 		}
-		for _, l := range res.Run1.Log {
+		for _, l := range res.Run.Log {
 			if !have[l] {
 				have[l] = true
 				c.logs[key] = append(c.logs[key], l)
 			}
 		}
 		c.mech["fault-free subset cases"]++
-		if len(res.Run1.Before) > 0 && len(cachedShards(j.Prog, res.Run1.Before)) > 0 {
+		if len(cachedShards(j.Prog, res.Run.Before)) > 0 {
 			c.mech["fault-free subset cases with cached shards"]++
 		}
-		if !c.sampled["subset/"+j.Prog.Name()] && len(j.Files) == 2 && j.Exec == "local" {
+		if len(j.Files) == 2 && j.Exec == "local" && (j.Prog.Name() == "partial-presh" || j.Prog.Name() == "cache-underhead") && !c.sampled["subset/"+j.Prog.Name()] {
 			c.sampled["subset/"+j.Prog.Name()] = true
-			if j.Prog.Shape == "presh" || j.Prog.Shape == "underhead" {
-				c.r.Sample(map[string]interface{}{"case": c.caseName(j), "run1": res.Run1, "files_after_run1": keysOf(res.Snap), "run2_rows": res.Run2.Rows, "run2_counts": res.Run2.Counts})
-			}
+			c.r.Sample(map[string]interface{}{"case": c.caseName(j), "run": res.Run, "files_after": keysOf(res.After)})
 		}
 	})
-}
-
-func orOK(s string) string {
-	if s == "" {
-		return "ok"
-	}
-	return "error: " + s
 }
 
 func contains(s []string, x string) bool {
@@ -814,7 +924,7 @@ func contains(s []string, x string) bool {
 }
 
 func keysOf(m map[int]fileObs) []int {
-	var k []int
+	k := []int{}
 	for s := range m {
 		k = append(k, s)
 	}
@@ -829,10 +939,10 @@ func modesFor(label string) []vfs.Mode {
 	return []vfs.Mode{vfs.Fail, vfs.Crash}
 }
 
-// selectLabels: all labels (thorough), or (quick / pairs) per file the Write calls
-// number 0, 1, middle, last-1, last -- the first ones carry the stream header, the
-// last ones are issued when the compressor is closed at the end of the shard -- and the
-// Stat probes number 0 (driver), 1 and last (workers); every other operation is kept.
+// selectLabels: all labels, or (quick tier, pairs) per file the Write calls number 0,
+// middle, last-1, last -- the first carries the stream header, the last one is issued
+// when the compressor is closed at the end of the shard -- and the Stat probes number 0
+// (driver), 1 and last (workers); every other operation is kept.
 func selectLabels(labels []string, all bool) []string {
 	if all {
 		return labels
@@ -850,7 +960,7 @@ func selectLabels(labels []string, all bool) []string {
 		n, m := labelOrdinal(l), max[key]
 		switch labelOp(l) {
 		case "Write":
-			if !(n <= 1 || n >= m-1 || n == m/2) {
+			if !(n == 0 || n >= m-1 || n == m/2) {
 				continue
 			}
 		case "Stat":
@@ -863,8 +973,81 @@ func selectLabels(labels []string, all bool) []string {
 	return out
 }
 
-// singleFaults: every (selected) label of the failure-free history × mode, for the given subsets.
+// faultCases runs fault cases. A single-fault case whose fault did not fire (labels of
+// worker probes depend on placement) is retried twice. keep says which results the
+// caller wants back (for the pairs).
+func (c *checker) faultCases(jobs []*job, keep func(*job) bool, budget time.Duration) map[*job]*result {
+	results := map[*job]*result{}
+	for attempt := 0; attempt < 3 && len(jobs) > 0; attempt++ {
+		var retry []*job
+		// a retried case must not be judged twice: decide before first()
+		var todo []*job
+		todo = jobs
+		skipped := c.runCasesFiltered(todo, budget, func(j *job, res *result) bool {
+			if !res.Hang && len(res.Run.Fired) < len(j.Faults) && attempt < 2 && len(j.Faults) == 1 {
+				retry = append(retry, j)
+				return false
+			}
+			return true
+		}, func(j *job, res *result) {
+			c.faultRun++
+			if keep != nil && keep(j) {
+				results[j] = res
+			}
+			if len(res.Run.Fired) == len(j.Faults) {
+				var cls []string
+				for _, f := range j.Faults {
+					cls = append(cls, labelClass(f.Label)+"/"+f.Mode.String())
+				}
+				c.nontriv.Add(j.Prog.Name() + "/" + j.Exec + "/" + subsetName(j.Files) + "/" + strings.Join(cls, "+"))
+				c.mech["fired:"+faultClass(j)]++
+				if fc := faultClass(j); !c.sampled["fault/"+fc] && j.Exec == "local" && (fc == "Close-fail" || fc == "Create-crash" || fc == "Write-failpartial") {
+					c.sampled["fault/"+fc] = true
+					c.r.Sample(map[string]interface{}{"case": c.caseName(j), "run1_ok": res.Run.OK, "run1_err": res.Run.Err, "files_after_run1": keysOf(res.After), "log_len": len(res.Run.Log)})
+				}
+			} else {
+				c.notFired++
+			}
+		})
+		if skipped > 0 {
+			c.r.NotExhaustive(fmt.Sprintf("time budget: %d fault cases of phase %q not run", skipped, c.phase))
+			return results
+		}
+		jobs = retry
+	}
+	return results
+}
+
+// runCasesFiltered is runCases with a veto: accept() false = the result is dropped
+// unjudged (the case will be run again).
+func (c *checker) runCasesFiltered(jobs []*job, budget time.Duration, accept func(*job, *result) bool, handle func(*job, *result)) int {
+	const chunk = 400
+	for i := 0; i < len(jobs); i += chunk {
+		if c.r.OverBudget(budget) {
+			return len(jobs) - i
+		}
+		end := i + chunk
+		if end > len(jobs) {
+			end = len(jobs)
+		}
+		c.runJobs(jobs[i:end], func(j *job, res *result) {
+			c.mech["runs:"+c.phase+":"+j.Exec]++
+			if !accept(j, res) {
+				return
+			}
+			c.first(j, res)
+			if !res.Hang {
+				handle(j, res)
+			}
+		})
+		c.drain()
+	}
+	return 0
+}
+
+// singleFaults: every (selected) label of the failure-free history × mode.
 func (c *checker) singleFaults(progs []prog, masks func(p prog, kind string) []int, allLabels func(kind string, mask int) bool, keep func(*job) bool, budget time.Duration) map[*job]*result {
+	c.phase = "single-faults"
 	var jobs []*job
 	for _, p := range progs {
 		for _, k := range executors {
@@ -880,83 +1063,13 @@ func (c *checker) singleFaults(progs []prog, masks func(p prog, kind string) []i
 	}
 	// simplest first: fewer pre-existing files, then program order
 	sort.SliceStable(jobs, func(a, b int) bool { return len(jobs[a].Files) < len(jobs[b].Files) })
-	return c.faultJobs(jobs, keep, budget)
+	return c.faultCases(jobs, keep, budget)
 }
 
-// faultJobs runs fault cases; a case whose fault did not fire (labels of worker probes
-// depend on placement) is retried twice.
-func (c *checker) faultJobs(jobs []*job, keep func(*job) bool, budget time.Duration) map[*job]*result {
-	results := map[*job]*result{}
-	for attempt := 0; attempt < 3 && len(jobs) > 0; attempt++ {
-		var retry []*job
-		skipped := 0
-		c.runJobsBudget(jobs, budget, &skipped, func(j *job, res *result) {
-			if res.Hang == "" && len(res.Run1.Fired) < len(j.Faults) && attempt < 2 && firstUnfiredIsPossible(j, res) {
-				retry = append(retry, j)
-				return
-			}
-			c.faultRuns++
-			if keep != nil && keep(j) {
-				results[j] = res
-			}
-			c.handle(j, res)
-			if res.Hang != "" {
-				return
-			}
-			if len(res.Run1.Fired) == len(j.Faults) {
-				var cls []string
-				for _, f := range j.Faults {
-					cls = append(cls, labelClass(f.Label)+"/"+f.Mode.String())
-				}
-				c.nontriv.Add(j.Prog.Name() + "/" + j.Exec + "/" + subsetName(j.Files) + "/" + strings.Join(cls, "+"))
-				c.mech["fired:"+faultClass(j)]++
-				if n := len(c.sampled); !c.sampled["fault/"+faultClass(j)] && n < 40 && j.Exec == "local" && len(j.Faults) == 1 &&
-					(labelOp(j.Faults[0].Label) == "Close" || labelOp(j.Faults[0].Label) == "Create") {
-					c.sampled["fault/"+faultClass(j)] = true
-					c.r.Sample(map[string]interface{}{"case": c.caseName(j), "run1_ok": res.Run1.OK, "run1_err": res.Run1.Err, "files_after_run1": keysOf(res.Snap),
-						"run2_ok": res.Run2.OK, "run2_rows": res.Run2.Rows, "run2_counts": res.Run2.Counts})
-				}
-			} else {
-				c.notFired++
-			}
-		})
-		if skipped > 0 {
-			c.r.NotExhaustive(fmt.Sprintf("time budget: %d fault cases not run", skipped))
-			return results
-		}
-		jobs = retry
-	}
-	return results
-}
-
-// firstUnfiredIsPossible: always true for now (kept as a hook for pairs: the second
-// fault of a pair cannot fire if the first one changed the history).
-func firstUnfiredIsPossible(j *job, res *result) bool {
-	return len(j.Faults) == 1
-}
-
-func (c *checker) runJobsBudget(jobs []*job, budget time.Duration, skipped *int, handle func(*job, *result)) {
-	var run []*job
-	// the budget is checked per chunk so that the order (simplest first) decides what
-	// is dropped
-	const chunk = 512
-	for i := 0; i < len(jobs); i += chunk {
-		if c.r.OverBudget(budget) {
-			*skipped += len(jobs) - i
-			break
-		}
-		end := i + chunk
-		if end > len(jobs) {
-			end = len(jobs)
-		}
-		run = jobs[i:end]
-		c.runJobs(run, handle)
-	}
-}
-
-// pairs: for each fired, non-crash single fault of the given cases, every label of
-// the rest of ITS history (after the point where it fired) × mode.
-func (c *checker) pairs(singles map[*job]*result, want func(j *job) bool, budget time.Duration) {
+// pairs: for each fired, non-crash single fault of the given cases, every (selected)
+// label of the rest of ITS history (after the point where it fired) × mode.
+func (c *checker) pairs(singles map[*job]*result, secondModes func(label string) []vfs.Mode, budget time.Duration) {
+	c.phase = "fault-pairs"
 	var jobs []*job
 	var order []*job
 	for j := range singles {
@@ -965,7 +1078,7 @@ func (c *checker) pairs(singles map[*job]*result, want func(j *job) bool, budget
 	sort.Slice(order, func(a, b int) bool { return order[a].ID < order[b].ID })
 	for _, j := range order {
 		res := singles[j]
-		if !want(j) || res.Hang != "" || len(j.Faults) != 1 || j.Faults[0].Mode == vfs.Crash || len(res.Run1.Fired) != 1 {
+		if res.Hang || len(j.Faults) != 1 || j.Faults[0].Mode == vfs.Crash || len(res.Run.Fired) != 1 {
 			continue
 		}
 		first := j.Faults[0]
@@ -973,7 +1086,7 @@ func (c *checker) pairs(singles map[*job]*result, want func(j *job) bool, budget
 			continue
 		}
 		at := -1
-		for i, l := range res.Run1.Log {
+		for i, l := range res.Run.Log {
 			if l == first.Label {
 				at = i
 				break
@@ -983,24 +1096,25 @@ func (c *checker) pairs(singles map[*job]*result, want func(j *job) bool, budget
 			continue
 		}
 		seen := map[string]bool{}
-		for _, l := range selectLabels(res.Run1.Log[at+1:], false) {
+		for _, l := range selectLabels(res.Run.Log[at+1:], false) {
 			if seen[l] {
 				continue
 			}
 			seen[l] = true
-			for _, m := range modesFor(l) {
+			for _, m := range secondModes(l) {
 				jobs = append(jobs, c.newJob(j.Prog, j.Exec, j.Files, []fault{first, {Label: l, Mode: m}}))
 			}
 		}
 	}
 	c.mech["pair cases enumerated"] = len(jobs)
-	c.faultJobs(jobs, nil, budget)
+	c.faultCases(jobs, nil, budget)
 }
 
 // upstreamFailures: the computation under the cache fails by itself: the source of one
 // shard returns an error after r rows (r = 0 .. all rows; "all" = instead of the end of
 // the stream). No file fault is armed.
 func (c *checker) upstreamFailures(progs []prog, masks func(p prog, kind string) []int, budget time.Duration) {
+	c.phase = "upstream-failures"
 	var jobs []*job
 	for _, p := range progs {
 		if p.reads() {
@@ -1019,20 +1133,14 @@ func (c *checker) upstreamFailures(progs []prog, masks func(p prog, kind string)
 		}
 	}
 	sort.SliceStable(jobs, func(a, b int) bool { return len(jobs[a].Files) < len(jobs[b].Files) })
-	skipped := 0
-	c.runJobsBudget(jobs, budget, &skipped, func(j *job, res *result) {
-		c.faultRuns++
-		c.handle(j, res)
-		if res.Hang != "" {
-			return
-		}
-		if res.Run1.Counts["srcfail"] > 0 {
+	skipped := c.runCases(jobs, budget, func(j *job, res *result) {
+		c.faultRun++
+		if res.Run.Counts["srcfail"] > 0 {
 			c.nontriv.Add(fmt.Sprintf("%s/%s/%s/upstream-error/s%d@%d", j.Prog.Name(), j.Exec, subsetName(j.Files), j.Upstream[0], j.Upstream[1]))
 			c.mech["fired:upstream-error"]++
 			if !c.sampled["upstream"] && j.Upstream[1] == 3 {
 				c.sampled["upstream"] = true
-				c.r.Sample(map[string]interface{}{"case": c.caseName(j), "run1_ok": res.Run1.OK, "run1_err": res.Run1.Err, "files_after_run1": keysOf(res.Snap),
-					"run2_ok": res.Run2.OK, "run2_rows": res.Run2.Rows, "run2_counts": res.Run2.Counts})
+				c.r.Sample(map[string]interface{}{"case": c.caseName(j), "run1_ok": res.Run.OK, "run1_err": res.Run.Err, "files_after_run1": keysOf(res.After)})
 			}
 		} else {
 			c.notFired++
@@ -1044,9 +1152,12 @@ func (c *checker) upstreamFailures(progs []prog, masks func(p prog, kind string)
 	}
 }
 
-// confirm re-runs the first case of every signature; a violation is reported only if
-// the same signature shows again (the run-time of sessions is not under our control).
+// confirm re-executes cases of every candidate signature (first run and a fresh second
+// run, nothing memoized); a violation is reported only if the same signature shows
+// again. (Sessions run freely; on the cluster executor a task is sometimes executed
+// twice, so some histories are not repeatable.)
 func (c *checker) confirm() {
+	c.phase = "confirm"
 	var sigs []string
 	for s := range c.pending {
 		sigs = append(sigs, s)
@@ -1054,27 +1165,46 @@ func (c *checker) confirm() {
 	sort.Strings(sigs)
 	for _, sig := range sigs {
 		pv := c.pending[sig]
-		again := 0
-		for i := 0; i < 2 && again == 0; i++ {
-			j := *pv.j
-			c.nextID++
-			j.ID = c.nextID
-			c.runJobs([]*job{&j}, func(j *job, res *result) {
-				for _, v := range c.judge(j, res) {
+		again := false
+		var confirmedBy *job
+		for _, orig := range pv.cases {
+			for i := 0; i < 2 && !again; i++ {
+				j := *orig
+				c.nextID++
+				j.ID = c.nextID
+				var res1, res2 *result
+				c.runJobs([]*job{&j}, func(_ *job, res *result) { res1 = res })
+				if res1 == nil || res1.Hang {
+					continue
+				}
+				var vs []viol
+				vs = append(vs, c.judgeFirst(&j, res1)...)
+				j2 := c.newJob(j.Prog, j.Exec, bytesOf(res1.After), nil)
+				c.runJobs([]*job{j2}, func(_ *job, res *result) { res2 = res })
+				if res2 != nil && !res2.Hang {
+					vs = append(vs, c.judgeSecond(&j, res1, res2)...)
+				}
+				for _, v := range vs {
 					if v.sig == sig {
-						again++
+						again = true
+						confirmedBy = orig
+						pv.v = v
 					}
 				}
-			})
+			}
+			if again {
+				break
+			}
 		}
-		if again > 0 {
+		if again {
 			what := pv.v.what
 			if pv.count > 1 {
 				what += fmt.Sprintf(" [%d cases with this signature]", pv.count)
 			}
+			_ = confirmedBy
 			c.r.Violate(sig, what, pv.v.detail)
 		} else {
-			c.r.Note("unconfirmed (seen in %d case(s), not reproduced in 2 re-runs): %s: %s", pv.count, sig, pv.v.what)
+			c.r.Note("unconfirmed (seen in %d case(s), not reproduced in re-runs of %d of them): %s: %s", pv.count, len(pv.cases), sig, pv.v.what)
 			c.r.NotExhaustive("a violation candidate did not reproduce: " + sig)
 		}
 	}
@@ -1087,18 +1217,16 @@ func (c *checker) run() {
 	c.reference(progs)
 	c.subsetsPhase(progs)
 
-	budget := 5 * time.Minute
+	budget := 4 * time.Minute
 	if thorough {
 		budget = 9 * time.Minute
 	}
-	// Fault cases. A cluster case costs ~0.2 CPU-seconds, a local one ~0.05.
-	// quick:    pre-existing files {none, all but shard 0, all}; selected labels (see
-	//           selectLabels); local executor: every program, cluster: five programs
-	//           (one per cache operator / position class).
+	// Fault cases. quick: pre-existing files {none, all} (CachePartial also: all but
+	//           shard 0); selected labels (see selectLabels); local executor: every
+	//           program; cluster: three programs (one per cache operator).
 	// thorough: every subset, every program, both executors; every label, except on
 	//           the cluster for the five subsets not in quick (selected labels).
-	quickMasks := []int{0, 6, 7}
-	vsysQuick := map[string]bool{"cache-mid": true, "partial-mid": true, "partial-postsh": true, "cache-underhead": true, "read-map": true}
+	vsysQuick := map[string]bool{"cache-mid": true, "partial-postsh": true, "read-map": true}
 	masks := func(p prog, kind string) []int {
 		if thorough {
 			return subsets()
@@ -1106,7 +1234,10 @@ func (c *checker) run() {
 		if kind == "vsys" && !vsysQuick[p.Name()] && *flagOnly == "" {
 			return nil
 		}
-		return quickMasks
+		if p.Op == "partial" {
+			return []int{0, 6, 7}
+		}
+		return []int{0, 7}
 	}
 	allLabels := func(kind string, mask int) bool {
 		if !thorough {
@@ -1162,7 +1293,12 @@ func (c *checker) run() {
 		return nil
 	}, budget)
 	singles := c.singleFaults(progs, masks, allLabels, pairCase, budget)
-	c.pairs(singles, pairCase, budget)
+	c.pairs(singles, func(l string) []vfs.Mode {
+		if thorough {
+			return modesFor(l)
+		}
+		return []vfs.Mode{vfs.Fail, vfs.Crash} // quick: no partial write as the second fault
+	}, budget)
 	c.confirm()
 
 	var names []string
@@ -1179,23 +1315,26 @@ func (c *checker) run() {
 		nlabels += len(l)
 	}
 	r.Finish(ev.Coverage{
-		"evaluations":         c.evaluations,
+		"evaluations":         c.cases,
 		"distinct_nontrivial": c.nontriv.Distinct(),
-		"rule": "case = (program, executor, subset of pre-existing valid shard files, 0/1/2 armed file-operation faults) -> first run, then a second run in a fresh session over the files left; " +
-			"faults = every label of the failure-free history of the same (program, executor, subset) x {fail, failpartial (writes), crash}, ordered pairs of them, " +
+		"rule": "case = (program, executor, subset of pre-existing valid shard files, 0/1/2 armed file-operation faults or a failing source) -> first run, then a second, fault-free run in a fresh session over the files left " +
+			"(a fault-free run is a function of program, executor and file contents and is executed once per distinct state); " +
+			"faults = every (quick: selected) label of the failure-free history of the same (program, executor, subset) x {fail, failpartial (writes), crash}, ordered pairs of them, " +
 			"and (no file fault) the source of shard s failing after r rows for every s, r; " +
 			"non-trivial = every armed fault actually fired (vfs Fired; the failing source was actually asked), counted as distinct (program, executor, subset, label class, mode)",
-		"programs":               names,
-		"executors":              executors,
-		"fault_cases":            c.faultRuns,
-		"fault_cases_not_fired":  c.notFired,
-		"failure_free_labels":    nlabels,
-		"distinct_outcomes":      c.outcomes.Distinct(),
-		"outcomes":               c.outcomes.Keys(),
-		"mechanisms":             mech,
-		"key_to_shard_learned":   c.keyShard,
-		"violation_candidates":   len(c.pending),
-		"second_volume_modelled": "the second run works on a copy of the committed files taken when the first run returned (= the first process exits)",
+		"programs":                  names,
+		"executors":                 executors,
+		"runs_executed":             c.runs,
+		"fault_cases":               c.faultRun,
+		"fault_cases_not_fired":     c.notFired,
+		"failure_free_labels":       nlabels,
+		"distinct_file_states_left": c.states.Distinct(),
+		"distinct_outcomes":         c.outcomes.Distinct(),
+		"outcomes":                  c.outcomes.Keys(),
+		"mechanisms":                mech,
+		"key_to_shard_learned":      c.keyShard,
+		"violation_candidates":      len(c.pending),
+		"process_model":             "every run has its own volume; the next run gets a copy of the files committed when the previous run returned (= the process exits); a crash makes every later file operation of that run fail",
 	})
 }
 
@@ -1216,19 +1355,16 @@ func (c *checker) probe(name string) {
 	}
 	c.runJobs(jobs, func(j *job, res *result) {
 		fmt.Printf("== %s\n", c.caseName(j))
-		if res.Hang != "" {
-			fmt.Println("HANG", res.Hang)
+		if res.Hang {
+			fmt.Println("HANG")
 			return
 		}
-		pr := func(which string, o *runObs) {
-			fmt.Printf(" %s ok=%v err=%q rows=%v before=%v %dms\n  counts=%v\n  log=%v\n", which, o.OK, o.Err, o.Rows, o.Before, o.Ms, o.Counts, o.Log)
+		o := res.Run
+		fmt.Printf(" ok=%v err=%q rows=%v before=%v %dms attempts=%d\n  counts=%v\n  log=%v\n", o.OK, o.Err, o.Rows, o.Before, o.Ms, res.Attempts, o.Counts, o.Log)
+		for s, fo := range res.After {
+			fmt.Printf("  after[%d]: %d bytes complete=%v strict=%q rows=%v err=%q\n", s, fo.Size, fo.Complete, fo.Strict, fo.Rows, fo.Err)
 		}
-		pr("run1", res.Run1)
-		for s, fo := range res.Snap {
-			fmt.Printf("  snap[%d]: %d bytes complete=%v rows=%v err=%q\n", s, fo.Size, fo.Complete, fo.Rows, fo.Err)
-		}
-		pr("run2", res.Run2)
-		for _, v := range c.judge(j, res) {
+		for _, v := range c.judgeFirst(j, res) {
 			fmt.Println("  CANDIDATE", v.sig, "::", v.what)
 		}
 	})
